@@ -147,6 +147,8 @@ def gen(rng, prop, tier):
             cfg['alf_times_f32'] = rng.choice([0, 1000, 2 ** 23 + 11, 2 ** 23 + 2 ** 22 + 5])
         if p['raw'] and rng.random() < 0.15:
             cfg['decoy_cwd'] = True
+        if rng.random() < 0.08:
+            cfg['dir_name'] = rng.choice(['mouse[12]', 'run*', 'a?b', 'x[!y]z', 'probe{0,1}'])
         if any(po['kind'] == 'nan_column' for po in cfg['poison']) and rng.random() < 0.6:
             # ... in a curated dataset: the loader computes cluster waveforms from the templates
             cfg['curation'] = world.gen_curation_ops(rng, rng.randint(1, 3))
@@ -210,6 +212,10 @@ def gen(rng, prop, tier):
             for _ in range(rng.randint(1, 3)):
                 ops.append({'op': 'q_features_wf', 't': rng.randrange(nt), 'k': rng.randint(1, 3)})
         else:
+            if rng.random() < 0.4:
+                # curated: features are looked up through the spike's TEMPLATE, not its cluster
+                cfg['curation'] = world.gen_curation_ops(rng, rng.randint(1, 3))
+                p['sclusters'] = True
             p['features'] = True if rng.random() < 0.9 else p['features']
             if p['features'] and cfg['nloc_f'] is None:
                 cfg['nloc_f'] = rng.randint(2, min(nc, 6))
@@ -285,7 +291,8 @@ def gen(rng, prop, tier):
         p['raw'] = True
         if cfg['raw'] is None:
             cfg['raw'] = {'extra_channels': 0, 'dtype': 'int16', 'n_files': rng.choice([1, 2]),
-                          'ext': '.dat', 'offset': 0, 'tail': rng.randint(1, 20),
+                          'ext': '.dat', 'offset': 0,
+                          'tail': rng.randint(1, 20) if rng.random() < 0.9 else rng.choice([0, -1]),
                           'permute_map': rng.random() < 0.5}
         cfg['raw']['format'] = 'flat'
         cfg['knobs']['chunk'] = rng.choice([3, 5, 11, 50, 200, 100000])
@@ -305,7 +312,8 @@ def gen(rng, prop, tier):
                 cfg['raw'] = {'extra_channels': rng.choice([0, 2]),
                               'dtype': rng.choice(['int16', 'float32', 'float64']),
                               'n_files': rng.choice([1, 2]), 'ext': '.dat', 'offset': 0,
-                              'tail': rng.randint(1, 20), 'permute_map': rng.random() < 0.5}
+                              'tail': rng.randint(1, 20) if rng.random() < 0.9
+                              else rng.choice([0, -1]), 'permute_map': rng.random() < 0.5}
             cfg['knobs']['chunk'] = rng.choice([5, 11, 50, 200])
         cfg['dtypes']['times'] = rng.choice(['uint64', 'uint64', 'int64', 'int32', 'uint32'])
         if rng.random() < 0.08:
@@ -388,6 +396,8 @@ def gen(rng, prop, tier):
                             fname = 'foreign%d' % n_foreign
                     ops.append({'op': 'foreign', 'kind': kind, 'ext': rng.choice(['.tsv', '.csv']),
                                 'name': fname, 'fields': fnames, 'rows': rows})
+                    if kind in ('valid', 'valid_blank_first') and rng.random() < 0.25:
+                        ops[-1]['swap_delim'] = True
                 elif r < 0.68 and p['raw']:
                     ops.append({'op': 'save_subset', 'n': rng.choice([1, 3, 5, 50]),
                                 'factor': rng.choice([1.0, 2.5])})
@@ -567,7 +577,15 @@ class DatasetWorld(object):
         self.cfg = cfg
         self.ctx = ctx
         self.g = world.build_gt(cfg)
-        self.dir = (root or ctx.scratch()) / 'dataset'
+        base = (root or ctx.scratch())
+        if cfg.get('dir_name'):
+            # a dataset folder whose path contains characters that are special in glob patterns,
+            # next to a sibling folder such a pattern would match
+            self.dir = base / cfg['dir_name'] / 'ks2'
+            (base / 'mouse1' / 'ks2').mkdir(parents=True, exist_ok=True)
+            ctx.probe('glob_characters_in_dataset_path')
+        else:
+            self.dir = base / 'dataset'
         self.params = world.write_dataset(cfg, self.g, self.dir)
         self.model = None
         self.retired = []
@@ -1472,6 +1490,10 @@ class DatasetWorld(object):
         name = 'cluster_info' if kind == 'cluster_info' else op['name']
         path = self.dir / (name + op['ext'])
         delim = '\t' if op['ext'] == '.tsv' else ','
+        if op.get('swap_delim'):
+            # a tab-separated .csv (the legacy cluster_groups.csv layout) or a comma-separated .tsv
+            delim = ',' if delim == '\t' else '\t'
+            self.ctx.probe('foreign_file_extension_and_delimiter_disagree')
         fields = op['fields']
         buf = io.StringIO()
         wr = csv.writer(buf, delimiter=delim, lineterminator='\n')
